@@ -101,6 +101,13 @@ def noval_cases(draw):
     pair = draw(gen.image_pair(min_rows=7, max_rows=14, min_cols=8, max_cols=18, max_val=20, masks=True))
     pipe = draw(gen.legal_pipeline(validation=False))
     a = draw(st.integers(-4, 2))
+    if draw(st.integers(0, 3)) == 0:
+        # through a pyramid as well: the right dataset stays an empty dataset at every scale
+        pair = draw(gen.image_pair(min_rows=24, max_rows=36, min_cols=24, max_cols=40, max_val=20, masks=True, tile_max=8))
+        pipe = [[n, c] for n, c in pipe if n.split(".")[0] != "aggregation" or True]
+        i_d = [n for n, _ in pipe].index("disparity")
+        pipe.insert(draw(st.integers(i_d + 1, len(pipe))), ["multiscale", {"multiscale_method": "fixed_zoom_pyramid",
+                                                                            "num_scales": draw(st.sampled_from([2, 2, 3]))}])
     return {"pair": pair, "pipeline": pipe, "disp": gen.clamp_interval([a, a + draw(st.integers(0, 5))], pair["W"], pipe)}
 
 
@@ -108,6 +115,13 @@ def noval_body(ctx: Ctx, p: dict) -> None:
     kw = gen.pair_kwargs(p["pair"])
     pipe = gen.pipe_dict(p["pipeline"])
     A = drive.run_pipeline(pipeline=pipe, disp=tuple(p["disp"]), **kw)
+    import xarray as xr
+
+    if not isinstance(A.right, xr.Dataset):
+        ctx.violation("C08/right-dataset-not-empty-without-validation", f"the right product is {type(A.right).__name__}, not an "
+                                                                        f"empty dataset pipeline={p['pipeline']}")
+        ctx.case(p, nontrivial=False, classes=[])
+        return
     if len(A.right.data_vars) != 0:
         ctx.violation("C08/right-dataset-not-empty-without-validation", f"{sorted(A.right.data_vars)}")
     pipe2 = gen.pipe_dict(p["pipeline"])
@@ -118,7 +132,7 @@ def noval_body(ctx: Ctx, p: dict) -> None:
     new = (B.left["validity_mask"].data ^ A.left["validity_mask"].data)
     if (new & ~0b1100000000).any():
         ctx.violation("C08/cross-check-changed-other-bits", "appending validation changed bits other than 8/9")
-    ctx.case(p, nontrivial=bool((new != 0).any()), classes=[])
+    ctx.case(p, nontrivial=bool((new != 0).any()), classes=["multiscale"] if "multiscale" in pipe else [])
 
 
 @st.composite
